@@ -4,7 +4,7 @@
 set -e
 cd "$(dirname "$0")"
 V=.venv
-if [ -x "$V/bin/python" ] && "$V/bin/python" -c "import z3, stix2, jsonschema" 2>/dev/null; then exit 0; fi
+if [ -x "$V/bin/python" ] && "$V/bin/python" -c "import z3, jsonschema, pytz" 2>/dev/null; then exit 0; fi
 rm -rf "$V"
 /venv/bin/python -m venv "$V"
 PIP_NO_INDEX=1 "$V/bin/pip" install -q --no-index --find-links /opt/veriftools/wheels z3-solver cvc5 crosshair-tool deal icontract jsonschema >/dev/null
